@@ -1,5 +1,5 @@
 (* BcastCheck.v — executable correspondence checker for Bcast.v: does the model, driven by the
-   same choices, admit the observations the real Broadcaster produced? *)
+   same choices, accept the observations the real Broadcaster produced? *)
 From Verif Require Import Base Bcast.
 
 Definition rres_eqb (a b : rres) : bool :=
